@@ -4,7 +4,7 @@ import os
 import z3
 from pyvc.api import *
 
-SPEC_IMPORTS = ['contracts.common', 'contracts.c19']
+SPEC_IMPORTS = ['contracts.common', 'contracts.c19', 'contracts.c20']
 SPEC_FUNCTIONS = ['doc_sort_key_defs']
 
 
@@ -94,8 +94,10 @@ def dynamic_contracts(repo):
     """the order in which the project is scanned (and with it every answer that is cut off by a file limit or takes the
     first module found) is the directory listing order handed on by FolderIO.walk: its pruning keeps the kept folders
     IN ORDER (contracts shared with C19; a set- or hash-ordered rewrite fails them)"""
-    from contracts import c19
-    return list(c19.WALK)
+    from contracts import c19, c20
+    # ... and the effective search path of a Script is the same for every query, whatever was asked before: computing it
+    # changes neither the project's configuration nor the memoised path (contracts shared with C20)
+    return list(c19.WALK) + [c20._get_sys_path, c20._swm]
 
 
 def register(reg):
